@@ -1,17 +1,18 @@
 #!/bin/sh
-# re-run every kept seeded change against the current checks (detection regression)
+# re-run every kept seeded change against the current checks (detection regression); usage: tools/seed_regress.sh [glob]
 cd "$(dirname "$0")/.."
-for d in seeded/*/; do
+for d in seeded/${1:-*}/; do
   id=$(basename $d); prop=${id%-*}
   demo=$(ls $d/demo_*.py | head -1)
   cp $d/meta.json /tmp/meta_$id.json
-  python3 tools/seed_eval.py $prop "$(pwd)/${d}patch.diff" "$(pwd)/$demo" $id | cut -c1-120
+  python3 tools/seed_eval.py $prop "$(pwd)/${d}patch.diff" "$(pwd)/$demo" $id | cut -c1-260
   python3 - $id <<'PY'
 import json,sys
 i=sys.argv[1]
 old=json.load(open(f'/tmp/meta_{i}.json')); new=json.load(open(f'/verif/seeded/{i}/meta.json'))
-for k in ('breaks','needs_to_manifest','detected_by_checks_as_first_built','source'):
+for k in ('breaks','needs_to_manifest','detected_by_checks_as_first_built','source','note','strengthening'):
     if k in old: new[k]=old[k]
 json.dump(new,open(f'/verif/seeded/{i}/meta.json','w'),indent=1)
 PY
+  rm -f /tmp/meta_$id.json
 done
